@@ -520,6 +520,11 @@ def check(ctx, rep):
     rule_flag_stored(ctx, rep)
     rule_only_writes(ctx, rep)
     rule_no_foreign_process(ctx, rep)
+    from .c17 import rule_select_unique
+
+    # a codemod selected twice runs twice: the second execution sees the rewritten files in a real run but the originals in a dry run,
+    # so the dry-run report lists every changeset twice and no longer predicts the real one
+    rule_select_unique(ctx, rep)
     rep.not_covered += [
         "equality of dry and real reports beyond 'the flag influences nothing but writes' (I/O failures during the real write)",
     ]
